@@ -151,7 +151,7 @@ func genXO(r *Rand, tier string, emit func(string)) {
 		emit("xo stream=" + hx(s) + " plain=" + hx(p))
 		for k := 0; k < 6; k++ {
 			b := append([]byte(nil), s...)
-			switch r.Intn(9) {
+			switch r.Intn(11) {
 			case 0: // flip a bit anywhere
 				b[r.Intn(len(b))] ^= 1 << uint(r.Intn(8))
 			case 1: // flip a bit in the tail (footer / last index)
@@ -172,6 +172,16 @@ func genXO(r *Rand, tier string, emit func(string)) {
 				}
 			case 7: // set a final bit somewhere in the first byte of the stream
 				b[0] |= 1
+			case 8: // clear the DEFLATE final bit of the footer block (the meta signature ignores it)
+				if fs := xflate.VerifMetaReverseSearch(b); fs >= 0 {
+					b[fs] &^= 1
+				}
+			case 9: // ... or of the last index block / set it on an index block
+				if fs := xflate.VerifMetaReverseSearch(b); fs > 0 {
+					if is := xflate.VerifMetaReverseSearch(b[:fs]); is >= 0 {
+						b[is] ^= 1
+					}
+				}
 			default: // replace the footer by one pointing elsewhere
 				ft := buildFooter(uint64(r.Intn(300)))
 				if len(b) > 20 {
@@ -330,7 +340,7 @@ func chunkRaw(chunk []byte) (int, bool) {
 func init() {
 	register(&Family{
 		Name: "xo",
-		Rule: "xflate.NewReader + ReadAll on arbitrary bytes: all strings <= 1 byte; index/footer-only streams declaring huge record counts; streams from the real Writer (random configuration and schedule) untouched and with bit flips (anywhere / in the tail), truncation, leading or trailing bytes, duplication, byte swaps, an early final bit, a replaced footer; genuine chunks followed by a re-encoded index and footer with a tampered record count, totals, record sizes (incl. <= 4), CRC, back size, final mode, record order, flag byte, and chunks with an embedded final bit; chunks crafted from DEFLATE fragments the Writer never emits (final stored / dynamic / fixed blocks running 0..9 bytes into the appended end block, over-long stored blocks, junk ending in the sync marker) under an index that agrees with the per-chunk inflater. Accepted streams of <= 700 bytes are also read by the Open+Reader models over the RFC 1951 specification (kind xa). Oracle: accepted + fully read => compress/flate reads the same bytes identically. Non-trivial = accepted or longer than 20 bytes; distinct by stream",
+		Rule: "xflate.NewReader + ReadAll on arbitrary bytes: all strings <= 1 byte; index/footer-only streams declaring huge record counts; streams from the real Writer (random configuration and schedule) untouched and with bit flips (anywhere / in the tail), truncation, leading or trailing bytes, duplication, byte swaps, an early final bit, a footer or index block with its DEFLATE final bit toggled, a replaced footer; genuine chunks followed by a re-encoded index and footer with a tampered record count, totals, record sizes (incl. <= 4), CRC, back size, final mode, record order, flag byte, and chunks with an embedded final bit; chunks crafted from DEFLATE fragments the Writer never emits (final stored / dynamic / fixed blocks running 0..9 bytes into the appended end block, over-long stored blocks, junk ending in the sync marker) under an index that agrees with the per-chunk inflater. Accepted streams of <= 700 bytes are also read by the Open+Reader models over the RFC 1951 specification (kind xa). Oracle: accepted + fully read => compress/flate reads the same bytes identically. Non-trivial = accepted or longer than 20 bytes; distinct by stream",
 		Gen:  genXO,
 		Exec: execXO,
 	})
